@@ -9,7 +9,7 @@
 
 use std::cell::Cell;
 use std::sync::atomic::{AtomicBool, AtomicI64, AtomicU64, Ordering};
-use std::sync::{Condvar, Mutex};
+use std::sync::Mutex;
 
 pub static VIRTUAL: AtomicBool = AtomicBool::new(false);
 static MONO_NS: AtomicU64 = AtomicU64::new(0);
@@ -29,6 +29,10 @@ struct Sleeper {
     tid: u64,
     wake_at: u64,
     released: bool,
+    /// each sleeper parks on its own flag, so that releasing one does not wake all the others (a worker that
+    /// restarts servers accumulates their sweeper threads)
+    flag: std::sync::Arc<std::sync::atomic::AtomicBool>,
+    thread: std::thread::Thread,
 }
 
 struct Reg {
@@ -36,7 +40,6 @@ struct Reg {
 }
 
 static REG: Mutex<Reg> = Mutex::new(Reg { sleepers: Vec::new() });
-static CV: Condvar = Condvar::new();
 
 pub fn my_tid() -> u64 {
     TID.try_with(|t| {
@@ -158,19 +161,17 @@ pub fn virt_sleep_until(wake_at: u64) {
     if MONO_NS.load(Ordering::SeqCst) >= wake_at {
         return;
     }
-    reg.sleepers.push(Sleeper { tid, wake_at, released: false });
+    let flag = std::sync::Arc::new(std::sync::atomic::AtomicBool::new(false));
+    reg.sleepers.push(Sleeper { tid, wake_at, released: false, flag: flag.clone(), thread: std::thread::current() });
     RUNNING.fetch_sub(1, Ordering::SeqCst);
-    loop {
-        reg = CV.wait(reg).unwrap();
-        if let Some(pos) = reg.sleepers.iter().position(|s| s.tid == tid) {
-            if reg.sleepers[pos].released {
-                reg.sleepers.remove(pos);
-                // RUNNING was incremented by the releaser
-                return;
-            }
-        } else {
-            return;
-        }
+    drop(reg);
+    while !flag.load(Ordering::SeqCst) {
+        std::thread::park();
+    }
+    // RUNNING was incremented by the releaser
+    let mut reg = REG.lock().unwrap();
+    if let Some(pos) = reg.sleepers.iter().position(|s| s.tid == tid) {
+        reg.sleepers.remove(pos);
     }
 }
 
@@ -246,7 +247,8 @@ pub fn advance_to(target: u64) -> Result<(), SettleTimeout> {
                             Some(s) => {
                                 s.released = true;
                                 RUNNING.fetch_add(1, Ordering::SeqCst);
-                                CV.notify_all();
+                                s.flag.store(true, Ordering::SeqCst);
+                                s.thread.unpark();
                             }
                             None => break,
                         }
